@@ -1483,6 +1483,9 @@ class Xsd11Group(XsdGroup):
             return True
 
     def is_choice_restriction(self, other: XsdGroup) -> bool:
+        if not self.has_occurs_restriction(other):
+            return False
+
         restriction_items = [x for x in self.iter_model()]
         has_not_empty_item = any(e.max_occurs != 0 for e in restriction_items)
 
